@@ -476,11 +476,17 @@ def opt(v, f=lambda x: x):
     return None if v == [] else f(v[0])
 
 
+def rr_presence(v):
+    """the statement asks that a read without the motif is rejected (no DS, not valid, qcfail), not for the wording of the
+    RR reason: a non-empty reason is compared as present"""
+    return 'rejected' if len(v) > 0 else ''
+
+
 def decode_model(out):
     if out == [-1]:
         return 'raise'
     ds, rs, rz, rr, qc, valid, loc, cs = out
-    return {'DS': opt(ds), 'RS': opt(rs, bool), 'RZ': opt(rz, fw.as_str), 'RR': opt(rr, fw.as_str), 'qc': bool(qc),
+    return {'DS': opt(ds), 'RS': opt(rs, bool), 'RZ': opt(rz, fw.as_str), 'RR': opt(rr, rr_presence), 'qc': bool(qc),
             'valid': bool(valid), 'loc': opt(loc), 'cut_strand': opt(cs, bool)}
 
 
@@ -505,7 +511,7 @@ def canon_impl(case, res):
     qc = bool(fresh and fresh[0])
     loc = res['site_location']
     c = {'DS': first['DS'], 'RS': None if first['RS'] is None else bool(first['RS']), 'RZ': first['RZ'],
-         'RR': first['RR'], 'qc': qc, 'valid': res['valid'], 'loc': None if loc is None else loc[1],
+         'RR': None if first['RR'] is None else rr_presence(first['RR']), 'qc': qc, 'valid': res['valid'], 'loc': None if loc is None else loc[1],
          'cut_strand': res['cut_site_strand']}
     if res['strand'] != res['cut_site_strand']:
         problems.append('fragment.strand %r != cut_site_strand %r' % (res['strand'], res['cut_site_strand']))
